@@ -19,7 +19,8 @@ import os, sys
 sys.path.insert(0, os.path.dirname(os.path.abspath(__file__)))
 from common import rng
 import parsedoc as pd
-from parsedoc import make_request, split_request, split_impl, agree, post_ok, hx   # noqa: F401
+from parsedoc import make_request, split_request, split_impl, post_ok, hx   # noqa: F401
+from parsedoc import agree as _agree_content, extra_in_key
 
 FAMILY = "parse"
 HARNESS = {"source": "x_parse.c", "exclude_objs": ["parser"], "leak_clean": True}
@@ -132,6 +133,33 @@ def answers(policy, log):
             c, v = policy[1:].split(":")
             out.append(int(v) if code == int(c) else 0)
     return out
+
+
+def ops_of(obs):
+    """the `ops=` and `seq=` fields: numbers and ORDER of the successful store calls (blocks, frames, set_value, create_loop, add_packet, prune) — on the
+    implementation side counted by x_parse.c around the calls of parser.c, on the model side the trace of Model/ParserTrace.lean"""
+    if not obs.startswith("ps rc=") or " ops=" not in obs:
+        return None
+    ops = obs.split(" ops=", 1)[1].split(" ", 1)[0]
+    seq = obs.split(" seq=", 1)[1].split(" ", 1)[0] if " seq=" in obs else None
+    return (ops, seq)
+
+
+def agree(impl, model, req=None):
+    """return value, log and content as for `parsedoc`; in addition the store calls the productions made must be the ones the
+    instrumented parser model predicts (C03_parser_store_refines is about exactly that sequence of calls)"""
+    if not _agree_content(impl, model, req):
+        return False
+    if model.startswith("ps rc=") and " sto=" in model:
+        # the composition parser model -> store model, executed by the driver on this input (Model/ParserStoreOps.lean)
+        if model.split(" sto=", 1)[1].split(" ", 1)[0] not in ("ok", "skip"):
+            return False
+    oi, om = ops_of(impl), ops_of(model)
+    if oi is None or om is None:
+        return oi is None and om is None or not impl.startswith("ps rc=")
+    if req is not None and extra_in_key(impl, req):
+        return True
+    return oi == om
 
 
 def oracle(req, impl):
